@@ -18,14 +18,33 @@ Print Assumptions C25_source_lookup_order.
 
 (* _new_import as found in the source registers the import on every import statement (not only
    when the file is loaded), normalises the import name, a new namespace starts with the
-   built-in namespace as its only import, and _cls_fqn builds namespace "." rule name. *)
+   built-in namespace as its only import, _cls_fqn builds namespace "." rule name, and the imports
+   of the MAIN grammar are relative to its own folder whatever its file name is (dots in the name;
+   fix 76155a4).  The load theorems below are stated for main file names without a dot; names
+   with a dot are covered by this equation and by the correspondence. *)
 Theorem C25_source_imports :
-  (forall rec stk cur imp s, new_import rec stk cur imp s = new_import_doc rec stk cur imp s) /\
+  (forall main rec stk cur imp s, has_dot main = false ->
+     new_import main rec stk cur imp s = new_import_doc rec stk cur imp s) /\
   (forall cur imp, abs_import cur imp = norm_dots (rel_import cur imp)) /\
   initial_imports = [BASE] /\
-  (forall c, fqn c = fqn_doc c).
-Proof. exact (conj new_import_src_doc (conj abs_import_normalised (conj initial_imports_base fqn_src_doc))). Qed.
+  (forall c, fqn c = fqn_doc c) /\
+  main_in_root = true /\
+  (forall main imp, abs_import_src main main imp = norm_dots imp).
+Proof. exact (conj new_import_src_doc (conj abs_import_normalised (conj initial_imports_base (conj fqn_src_doc (conj main_in_root_doc abs_import_main))))). Qed.
 Print Assumptions C25_source_imports.
+
+(* The load algorithm as found in the source (textx/lang.py language_from_str ->
+   arpeggio.visit_parse_tree, the visitor's visit_import_stm -> metamodel._new_import ->
+   metamodel_from_file recursion): import statements are visited in textual order, both passes of
+   an imported grammar run inside _new_import before the importer continues (the source of the
+   cyclic-import finding), and the namespace is entered before and left after the nested load.
+   With these generated facts the source-driven load is the documented one; every theorem below
+   about load_main is proved through this equation and so re-proved against the source. *)
+Theorem C25_source_load : forall fs main, has_dot main = false -> no_refs fs ->
+  load_main fs main = load_main_doc fs main /\
+  (forall fuel stk ns s, load main fuel fs stk ns s = load_doc fuel fs stk ns s).
+Proof. exact (fun fs main H H' => conj (load_main_src_doc fs main H H') (load_src_doc fs main H H')). Qed.
+Print Assumptions C25_source_load.
 
 (* ---- the look-up itself, for every meta-model state and any number of imports ---- *)
 
@@ -47,9 +66,15 @@ Theorem C25_unqualified_none : forall s cur name, has_dot name = false ->
 Proof. exact lookup_unqualified_none. Qed.
 Print Assumptions C25_unqualified_none.
 
-(* A qualified name selects the named namespace's rule. *)
+(* A qualified name: when its first part is an alias of a referenced language (`reference lang as
+   alias`) it is resolved in that language's meta-model, otherwise it selects the named
+   grammar-file namespace's rule. *)
 Theorem C25_qualified : forall s cur q n, has_dot n = false ->
-  lookup s cur (q ++ DOT :: n) = lookup_in s q n.
+  lookup s cur (q ++ DOT :: n) =
+  match aget q (reflangs s) with
+  | Some lang => ext_lookup (slangs s) lang n
+  | None => lookup_in s q n
+  end.
 Proof. exact lookup_qualified. Qed.
 Print Assumptions C25_qualified.
 
@@ -61,12 +86,12 @@ Print Assumptions C25_qualified.
    name selects the named file's rule — provided no grammar imports a grammar that is still
    being loaded (no import cycle was followed: [backs] is the log of such imports).
    Hypotheses: no grammar file is called __base__.tx. *)
-Theorem C25_resolution_order : forall fs main,
+Theorem C25_resolution_order : forall fs main, has_dot main = false -> no_refs fs ->
   aget BASE fs = None -> main <> BASE ->
   serr (load_main fs main) = None -> backs (load_main fs main) = [] ->
   forall l, In l (links (load_main fs main)) ->
     option_map cls_key (l_target l) = spec_resolve fs (l_ns l) (l_name l).
-Proof. exact links_spec. Qed.
+Proof. exact links_spec_src. Qed.
 Print Assumptions C25_resolution_order.
 
 (* The same for import cycles that are harmless: every followed import (importer, imported)
@@ -74,38 +99,38 @@ Print Assumptions C25_resolution_order.
    is defined by the importer itself, is a built-in, or is not defined by the imported grammar
    ([safe], a decidable predicate on the file contents and the log; self-imports always
    qualify).  Its negation is exactly the class of the known finding. *)
-Theorem C25_resolution_order_cycles : forall fs main,
+Theorem C25_resolution_order_cycles : forall fs main, has_dot main = false -> no_refs fs ->
   aget BASE fs = None -> main <> BASE ->
   serr (load_main fs main) = None -> safe fs (load_main fs main) = true ->
   forall l, In l (links (load_main fs main)) ->
     option_map cls_key (l_target l) = spec_resolve fs (l_ns l) (l_name l).
-Proof. exact links_spec_safe. Qed.
+Proof. exact links_spec_safe_src. Qed.
 Print Assumptions C25_resolution_order_cycles.
 
 (* metamodel[name] after ANY successful load (import cycles included) is the documented rule
    as seen from the main grammar ... *)
-Theorem C25_metamodel_getitem : forall fs main,
+Theorem C25_metamodel_getitem : forall fs main, has_dot main = false -> no_refs fs ->
   aget BASE fs = None -> main <> BASE -> serr (load_main fs main) = None ->
   forall name c, lookup (load_main fs main) main name = Some c ->
     Some (cls_key c) = spec_resolve fs main name.
-Proof. exact final_lookup. Qed.
+Proof. exact final_lookup_src. Qed.
 Print Assumptions C25_metamodel_getitem.
 
 (* ... and an unqualified name that is not found has no documented rule either. *)
-Theorem C25_metamodel_getitem_none : forall fs main,
+Theorem C25_metamodel_getitem_none : forall fs main, has_dot main = false -> no_refs fs ->
   aget BASE fs = None -> main <> BASE -> serr (load_main fs main) = None ->
   forall name, has_dot name = false -> lookup (load_main fs main) main name = None ->
     spec_resolve fs main name = None.
-Proof. exact final_lookup_none. Qed.
+Proof. exact final_lookup_none_src. Qed.
 Print Assumptions C25_metamodel_getitem_none.
 
 (* Each class sits under its rule name in the namespace of its grammar file and reports the
    file-based qualified name (built-ins report the bare name); holds for every load, failed
    ones included. *)
-Theorem C25_fqn : forall fs main, main <> BASE ->
+Theorem C25_fqn : forall fs main, has_dot main = false -> no_refs fs -> main <> BASE ->
   forall a n c, lookup_in (load_main fs main) a n = Some c ->
     c_ns c = a /\ c_name c = n /\ fqn c = (if str_eqb a BASE then n else a ++ DOT :: n).
-Proof. exact classes_fqn. Qed.
+Proof. exact classes_fqn_src. Qed.
 Print Assumptions C25_fqn.
 
 (* One set of classes per grammar file, however many import paths lead to it: two table
@@ -113,25 +138,25 @@ Print Assumptions C25_fqn.
    namespace and rule name), and a successful load creates, besides the 9 built-in classes,
    exactly one class per rule of every file read (each file being read once,
    C25_each_file_read_once). *)
-Theorem C25_one_class_set_per_file : forall fs main, main <> BASE ->
+Theorem C25_one_class_set_per_file : forall fs main, has_dot main = false -> no_refs fs -> main <> BASE ->
   (forall a n c a' n' c',
      lookup_in (load_main fs main) a n = Some c -> lookup_in (load_main fs main) a' n' = Some c' ->
      c_id c = c_id c' -> a = a' /\ n = n') /\
   (serr (load_main fs main) = None ->
    created (load_main fs main) = length base_names + nrules_of fs (loads (load_main fs main))).
-Proof. exact one_class_set. Qed.
+Proof. exact one_class_set_src. Qed.
 Print Assumptions C25_one_class_set_per_file.
 
 (* Every grammar file is read at most once, however many import paths (or cycles) lead to
    it; holds for failed loads too. *)
-Theorem C25_each_file_read_once : forall fs main, main <> BASE -> NoDup (loads (load_main fs main)).
-Proof. exact loads_once. Qed.
+Theorem C25_each_file_read_once : forall fs main, has_dot main = false -> no_refs fs -> main <> BASE -> NoDup (loads (load_main fs main)).
+Proof. exact loads_once_src. Qed.
 Print Assumptions C25_each_file_read_once.
 
 (* Loading terminates for every import graph (cycles of imports included): the fuel
    |fs|+1 used by load_main is never exhausted, so EFuel is not a possible outcome. *)
-Theorem C25_terminates : forall fs main, serr (load_main fs main) <> Some EFuel.
-Proof. exact load_main_terminates. Qed.
+Theorem C25_terminates : forall fs main, has_dot main = false -> no_refs fs -> serr (load_main fs main) <> Some EFuel.
+Proof. exact load_main_terminates_src. Qed.
 Print Assumptions C25_terminates.
 
 (* ---- known finding: import cycles ---- *)
